@@ -107,6 +107,11 @@ fn parse_run(args: &[String]) -> (String, RunCfg, Option<u64>) {
             "--replay-dir" => cfg.replay_dir = val(i),
             "--known" => cfg.known_findings = val(i),
             "--extra-coverage" => cfg.extra_coverage = Some(val(i)),
+            "--small" => {
+                runner::set_small(true);
+                i += 1;
+                continue;
+            }
             _ => usage(),
         }
         i += 2;
@@ -141,6 +146,36 @@ fn child_main(args: &[String]) -> i32 {
             let doc = read_doc(path);
             let id = doc["property"].as_str().unwrap_or("").to_string();
             with_scenario!(id.as_str(), S => runner::replay::<S>(path, &doc))
+        }
+        "dump-trace" => {
+            // dump-trace <ID> <tier> <run> [--seed S] [--small]: the replay document of one run,
+            // for violations that only an interpreter (Miri) can see
+            if args.len() < 4 {
+                usage();
+            }
+            let run: u64 = args[3].parse().unwrap_or_else(|_| usage());
+            let mut a2: Vec<String> = vec!["run".into(), args[1].clone(), args[2].clone()];
+            a2.extend(args[4..].iter().cloned());
+            let (id, cfg, _) = parse_run(&a2);
+            with_scenario!(id.as_str(), S => {
+                let mut rng = rng::Rng::new(rng::run_seed(cfg.seed, S::TAG, run));
+                let t = S::gen(&mut rng, cfg.tier, run);
+                let doc = serde_json::json!({
+                    "property": S::ID,
+                    "clause": "undefined-behaviour",
+                    "detail": "Miri reported undefined behaviour (e.g. an access outside the buffer the code under test was given) while executing this trace",
+                    "key": format!("{} miri", S::ID),
+                    "seed": cfg.seed,
+                    "run": run,
+                    "tier": cfg.tier.name(),
+                    "miri": true,
+                    "build": dev::EIO_BUILD,
+                    "trace": t,
+                    "events": [],
+                });
+                println!("{}", serde_json::to_string_pretty(&doc).unwrap());
+                0
+            })
         }
         "exec-trace" => {
             // exec-trace <ID> <file holding a bare trace>: 0 = holds, 1 = violation; may crash
